@@ -42,7 +42,9 @@ func getScoreRange(left []byte, right []byte) (float64, float64, error) {
 			return leftRange, rightRange, errInvalidRange
 		}
 		if isLOpen {
-			leftRange++
+			// exclusive bound: the next representable score (leftRange+1 would skip
+			// fractional scores and is a no-op above 2^53)
+			leftRange = math.Nextafter(leftRange, math.Inf(1))
 		}
 	}
 	rangeD = right
@@ -62,7 +64,7 @@ func getScoreRange(left []byte, right []byte) (float64, float64, error) {
 			return leftRange, rightRange, errInvalidRange
 		}
 		if isROpen {
-			rightRange--
+			rightRange = math.Nextafter(rightRange, math.Inf(-1))
 		}
 
 	}
